@@ -49,7 +49,7 @@ pub fn check_one(m: &AnyManifest, ruleset_name: &str) -> Verdict {
     let oracle = lifecycle::check(m, &rules);
     let res = catch(std::panic::AssertUnwindSafe(|| StaticManifestInterpreter::new(rs, m).validate()));
     match res {
-        Err(p) => Verdict { accepted: false, error: None, oracle, violation: Some(format!("interpreter-panic:{}", p.site())), panic: Some(p) },
+        Err(p) => Verdict { accepted: false, error: None, oracle, violation: Some(format!("interpreter-panic:{}", panic_site(&p))), panic: Some(p) },
         Ok(Ok(())) => {
             let violation = oracle.as_ref().err().map(|inv| format!("accepted-invalid:{}:{}", inv.cause(), ruleset_name));
             Verdict { accepted: true, error: None, oracle, violation, panic: None }
